@@ -48,6 +48,8 @@ FIELDS = {
     'manifest_loader': Obj('ManifestLoader'),
     'loaded_manifests': DictT(Str, Obj('ManifestFile')),
     'updated_manifests': SetT(Str),
+    # ghost text sink (file objects opened for writing are modelled as objects with one field)
+    '_written': Str,
     # openpgp
     'debug': Bool,
     '_home': Opt(Str),
